@@ -23,7 +23,7 @@ def make(rng, sid):
         p["global_confdirs"] = rng.choice([[b".d"], [b"/conf.d", b".d"], [p["dsfx"] + b".d", b".x.d"]])
         p["postfixes"] = p["global_confdirs"]
     tg = gen_tree.Tagger()
-    t = gen_tree.random_tree(rng, p["dirs"], p["name"], p["dsfx"], p["postfixes"], tg)
+    t = gen_tree.random_tree(rng, p["dirs"], p["name"], p["dsfx"], p["postfixes"], tg, decoys=p["decoys"])
     _, u, e, name, sfx = p["call"]
     s = Scenario(sid, {"p": p, "tree": t})
     t.emit(s)
